@@ -119,6 +119,13 @@ func (r *Rec) write(l line) {
 func (r *Rec) Begin(ev Event) { r.write(line{Sc: r.sc, Begin: &ev}) }
 func (r *Rec) Emit(ev Event)  { r.write(line{Sc: r.sc, Ev: &ev}) }
 
+// DoneAndExit closes the scenario's record and ends the child process (used when the code under test left
+// goroutines behind that cannot be wound down); the supervisor starts a fresh child for the remaining scenarios.
+func (r *Rec) DoneAndExit(code int) {
+	r.write(line{Sc: r.sc, Done: true, Note: r.Note, Dead: r.Dead, Conc: r.Conc})
+	os.Exit(code)
+}
+
 var (
 	ScenFile = flag.String("scenarios", "", "JSON file with scenarios")
 	OutFile  = flag.String("out", "", "ndjson trace output")
